@@ -156,3 +156,77 @@ class LinkerToDataFrames(FunctionContract):
 
 
 CONTRACTS = [ModelToDataFrame(), LinkerToDataFrames()]
+
+
+class FromDataFrame(FunctionContract):
+    """BaseModel.from_dataframe(data, *args, **kwargs): the class is instantiated exactly once with the table's index as span (as a list, except
+    for pandas time indexes which are passed as they are), each column's values under the column's name - the values array itself, nothing
+    filled in, converted or dropped - and the further arguments unchanged; what the constructor returns is returned."""
+    qualname = 'fsic.core.models.BaseModel.from_dataframe'
+    props = ('C19',)
+
+    def scenarios(self):
+        return ['plain-index', 'period-index', 'datetime-index', 'no-columns']
+
+    def setup(self, interp, scenario):
+        import pandas as pd
+        e = {'scenario': scenario, 'calls': []}
+        if scenario == 'period-index':
+            index = pd.period_range('2000', periods=3, freq='Y')
+        elif scenario == 'datetime-index':
+            index = pd.date_range('2000-01-31', periods=3, freq='ME')
+        else:
+            index = pd.Index(['a', 'b', 'c'])
+        e['index'] = index
+        cols = [] if scenario == 'no-columns' else ['Y', 'X', 'status']
+
+        class Column:
+            def __init__(self, name):
+                self.name = name
+                self.values = ('values-of', name)
+        e['columns'] = {k: Column(k) for k in cols}
+
+        class Table:
+            def __init__(self_):
+                self_.index = index
+
+            def items(self_):
+                return list(e['columns'].items())
+
+            def __getattr__(self_, name):           # any other use of the table (fillna, dropna, astype, ...) is not part of the contract
+                raise AssertionError(f'table.{name} used')
+        e['table'] = Table()
+        e['result'] = object()
+
+        class Cls:
+            @staticmethod
+            def vc_call(interp_, args, kwargs, node):
+                e['calls'].append((list(args), dict(kwargs)))
+                return e['result']
+        e['extra_arg'], e['extra_kw'] = object(), object()
+        e['inputs'] = {}
+        return Call([Cls, e['table'], e['extra_arg']], {'engine': e['extra_kw']}, entry=e)
+
+    def post(self, interp, scenario, call, out):
+        ctx = interp.ctx
+        e = call.entry
+        if out.kind == 'raise':
+            ctx.prove(False, f'does_not_raise:{getattr(exc_class(out.exc), "__name__", "?")}', 'raises')
+            return
+        ok = len(e['calls']) == 1 and out.value is e['result']
+        ctx.prove(z3.BoolVal(ok), 'the_class_is_instantiated_exactly_once_and_its_instance_returned', 'ensures')
+        if len(e['calls']) != 1:
+            return
+        args, kw = e['calls'][0]
+        span = args[0] if args else None
+        if scenario in ('period-index', 'datetime-index'):
+            ctx.prove(z3.BoolVal(span is e['index']), 'a_pandas_time_index_is_passed_as_the_span_unchanged', 'ensures')
+        else:
+            ctx.prove(z3.BoolVal(isinstance(span, list) and span == list(e['index'])), 'the_span_is_the_list_of_index_labels_in_order', 'ensures', note=str(span))
+        ctx.prove(z3.BoolVal(len(args) == 2 and args[1] is e['extra_arg'] and kw.get('engine') is e['extra_kw']), 'further_arguments_forwarded_unchanged', 'ensures')
+        want = {k: c.values for k, c in e['columns'].items()}
+        got = {k: v for k, v in kw.items() if k != 'engine'}
+        ctx.prove(z3.BoolVal(set(got) == set(want) and all(got[k] is want[k] for k in want)), 'every_column_is_passed_under_its_name_as_the_values_it_holds', 'ensures', note=str(sorted(got)))
+
+
+CONTRACTS.append(FromDataFrame())
